@@ -321,6 +321,17 @@ func init() {
 		}
 		lst := tourAll(run, lgs, 0)
 		fmt.Printf("C13: session model %d states; %d/%d transitions of the %d LMTP configurations replayed on the real server\n", smc.Distinct, lst.Covered, lst.Edges, len(lgs))
+		// silence inside a message or a final chunk (a real ReadTimeout): one reply per
+		// recipient is still owed, with a plain and with a per-recipient backend
+		imc := modelCheck("MC_Idle", "MC_Idle.cfg", 8)
+		var igs []*sessrep.Graph
+		for _, g := range dumpEdges("MC_Idle", "Dump_Idle.cfg") {
+			if g.Cfg.Lmtp {
+				igs = append(igs, g)
+			}
+		}
+		ist := tourSome(run, igs, func(e *sessrep.Edge) bool { return e.Lbl.Cmd.C == "DATASTALL" || e.Lbl.Cmd.C == "BDATSTALL" })
+		fmt.Printf("C13: MC_Idle %d states; %d/%d stalled-message transitions of the LMTP configurations replayed\n", imc.Distinct, ist.Covered, ist.Edges)
 		// a delivery that outlives its aborted transfer must not write into the next transfer's statuses
 		vst, vsc := verdictFamily(run)
 		fmt.Printf("C13: Verdict.tla %d states; %d gated stale-verdict schedules (SMTP and LMTP, plain and per-recipient backends) validated by TLC\n", vst, vsc)
